@@ -20,6 +20,18 @@ import (
 	proto "github.com/liftbridge-io/liftbridge/server/protocol"
 )
 
+// vC04Codec stands in for the encryption-at-rest handler of a stream: sealing fails for values that carry
+// the marker (what a key-management failure does to a publish), everything else is stored as it is.
+type vC04Codec struct{}
+
+func (vC04Codec) Seal(v []byte) ([]byte, error) {
+	if bytes.Contains(v, []byte("UNSEALABLE")) {
+		return nil, fmt.Errorf("verif: sealing refused")
+	}
+	return v, nil
+}
+func (vC04Codec) Read(v []byte) ([]byte, error) { return v, nil }
+
 var vC04Policies = []client.AckPolicy{client.AckPolicy_LEADER, client.AckPolicy_ALL, client.AckPolicy_NONE}
 
 func TestVerifC04(t *testing.T) {
@@ -60,6 +72,10 @@ func TestVerifC04(t *testing.T) {
 			})
 			if err != nil {
 				t.Fatal(err)
+			}
+			enc := id%3 == 2
+			if enc {
+				v.p.encryptionHandler = vC04Codec{} // before the first publish reaches the message loop
 			}
 			var steps []vM
 			viol, vsig := "", ""
@@ -102,6 +118,31 @@ func TestVerifC04(t *testing.T) {
 						m["stored"] = true
 						setViol("rejected-message-stored", fmt.Sprintf("message %s is larger than clustering.replication.max.bytes; it must be refused and never stored, the log holds it", cid))
 					}
+					if m["unsealable"] == true && m["stored"] == nil && vC04Stored(v, []byte(m["value"].(string))) {
+						m["stored"] = true
+						setViol("rejected-message-stored", fmt.Sprintf("the value of message %s could not be encrypted; it must be refused and never stored, the log holds it", cid))
+					}
+				}
+				// everything the log holds is a message somebody published here and that was not refused (or one the
+				// other leader wrote during its term)
+				if viol == "" {
+					accepted := map[string]bool{}
+					for _, m := range sent {
+						if !m["large"].(bool) && m["unsealable"] != true {
+							accepted[m["value"].(string)] = true
+						}
+					}
+					for _, e := range vLogDump(v.p) {
+						val := e["v"].(string)
+						if !accepted[val] && !bytes.HasPrefix([]byte(val), []byte("foreign-")) {
+							short := val
+							if len(short) > 40 {
+								short = short[:40] + "..."
+							}
+							setViol("rejected-message-stored", fmt.Sprintf("offset %d holds %q, which is no message that was published and accepted", e["off"], short))
+							break
+						}
+					}
 				}
 				for _, a := range acks {
 					m := sent[a["corr"].(string)]
@@ -114,6 +155,9 @@ func TestVerifC04(t *testing.T) {
 					}
 					if a["err"] != "OK" {
 						continue
+					}
+					if m["unsealable"] == true {
+						setViol("rejected-message-acked", fmt.Sprintf("the value of message %s could not be encrypted and it was positively acknowledged", a["corr"]))
 					}
 					off := a["off"].(int64)
 					switch m["policy"] {
@@ -165,7 +209,7 @@ func TestVerifC04(t *testing.T) {
 				corr++
 				cid := fmt.Sprintf("m%03d", corr)
 				val := fmt.Sprintf("%s:%s", cid, "xxxxxxxx")
-				sent[cid] = vM{"corr": cid, "policy": pol.String(), "large": false, "expected": int64(-1), "value": val, "wrong": false}
+				sent[cid] = vM{"corr": cid, "policy": pol.String(), "large": false, "expected": int64(-1), "value": val, "wrong": false, "unsealable": false}
 				v.publish(cid, nil, []byte(val), pol, -1)
 				if sc.batch {
 					time.Sleep(70 * time.Millisecond)
@@ -275,10 +319,15 @@ func TestVerifC04(t *testing.T) {
 							}
 						}
 						val := fmt.Sprintf("%s:%s", cid, string(bytes.Repeat([]byte("x"), size)))
-						m := vM{"corr": cid, "policy": pol.String(), "large": size >= 600, "expected": expected, "value": val,
-							"wrong": cc && k == 1 && size < 600 && expected != -1 && expected != v.p.log.NewestOffset()+1}
+						unseal := enc && r.intn(5) == 0
+						if unseal {
+							val = fmt.Sprintf("%s:UNSEALABLE%s", cid, string(bytes.Repeat([]byte("x"), size)))
+							stats["publish/unsealable"]++
+						}
+						m := vM{"corr": cid, "policy": pol.String(), "large": size >= 600, "expected": expected, "value": val, "unsealable": unseal,
+							"wrong": cc && k == 1 && size < 600 && expected != -1 && expected != v.p.log.NewestOffset()+1 && !unseal}
 						sent[cid] = m
-						group = append(group, vM{"corr": cid, "policy": pol.String(), "large": size >= 600, "expected": expected})
+						group = append(group, vM{"corr": cid, "policy": pol.String(), "large": size >= 600, "expected": expected, "unsealable": unseal})
 						v.publish(cid, nil, []byte(val), pol, expected)
 					}
 					if sc.batch {
@@ -394,8 +443,15 @@ func TestVerifC04(t *testing.T) {
 					observe(vM{"op": "expand", "r": f})
 				}
 			}
+			v.mu.Lock()
+			for _, a := range v.acks {
+				if a.AckError == client.Ack_ENCRYPTION {
+					stats["ack/encryption-error"]++
+				}
+			}
+			v.mu.Unlock()
 			stats[fmt.Sprintf("rf=%d/minisr=%d/cc=%v/batch=%v", rf, sc.minISR, cc, sc.batch)]++
-			cj := vM{"k": "ack", "id": id, "replicas": replicas, "minisr": sc.minISR, "cc": cc, "batch": sc.batch, "steps": steps}
+			cj := vM{"k": "ack", "id": id, "replicas": replicas, "minisr": sc.minISR, "cc": cc, "batch": sc.batch, "enc": enc, "steps": steps}
 			if viol != "" {
 				out.emit(vM{"k": "violation", "sig": vsig, "what": viol, "case": cj})
 			}
